@@ -191,6 +191,45 @@ def run(ctx):
             okr = (0 <= float(lo) < 360) if wrap == 360 else (-180 <= float(lo) <= 180)
             if not okr:
                 prob(f"CartesianToSpherical{vec} longitude {float(lo)} out of range (wrap {wrap})", {"vector": vec})
+    # the declared inverse follows the wrap setting as configured NOW: every history of reading `.inverse` and assigning
+    # `wrap_lon_at` must end with the inverse a fresh model of the final setting declares
+    for cls, other in ((g.SphericalToCartesian, g.CartesianToSpherical), (g.CartesianToSpherical, g.SphericalToCartesian)):
+        for hist in ((360, "inv", 180), (180, "inv", 360), (360, 180, "inv", 360, "inv"), (180, "inv", "inv", 360, 180), (360, "inv", 360)):
+            m = cls(wrap_lon_at=hist[0])
+            try:
+                for h in hist[1:]:
+                    if h == "inv":
+                        inv = m.inverse
+                        inv(10.0, 20.0) if inv.n_inputs == 2 else inv(0.5, -0.5, 0.1)
+                    else:
+                        m.wrap_lon_at = h
+                final = [h for h in hist if h != "inv"][-1]
+                inv, fresh = m.inverse, cls(wrap_lon_at=final).inverse
+                ctx.case(key=("wrap-history", cls.__name__, hist), nontrivial=True, kind="inverse-after-wrap-history",
+                         sample={"model": cls.__name__, "history": list(hist)})
+                if type(inv) is not other or inv.wrap_lon_at != final or m.wrap_lon_at != final:
+                    prob(f"{cls.__name__}: after the history {list(hist)} (inverse reads / wrap_lon_at assignments) the declared inverse is "
+                         f"{type(inv).__name__}(wrap_lon_at={getattr(inv, 'wrap_lon_at', None)}), the model says wrap_lon_at={m.wrap_lon_at}; "
+                         f"configured: {final}", {"model": cls.__name__, "history": list(hist)})
+                    continue
+                for lon in (200.0, 270.0, 359.0, -160.0, -1.0, 10.0):
+                    lat = 12.5
+                    if cls is g.SphericalToCartesian:
+                        got = tuple(float(v) for v in inv(*m(lon, lat)))
+                        exp = tuple(float(v) for v in fresh(*cls(wrap_lon_at=final)(lon, lat)))
+                        okr = (0 <= got[0] < 360) if final == 360 else (-180 <= got[0] <= 180)
+                    else:
+                        vec = g.SphericalToCartesian()(lon, lat)
+                        got = tuple(float(v) for v in m(*vec))
+                        exp = tuple(float(v) for v in cls(wrap_lon_at=final)(*vec))
+                        okr = (0 <= got[0] < 360) if final == 360 else (-180 <= got[0] <= 180)
+                    if got != exp or not okr:
+                        prob(f"{cls.__name__}: after the history {list(hist)} longitude {lon} comes back as {got[0]} "
+                             f"(a fresh model configured with wrap_lon_at={final} gives {exp[0]})",
+                             {"model": cls.__name__, "history": list(hist), "lon": lon, "lat": lat})
+                        break
+            except Exception as e:  # noqa
+                prob(f"{cls.__name__}: history {list(hist)} raised {type(e).__name__}: {e}", {"model": cls.__name__, "history": list(hist)})
     # the one-ulp edge: a tiny negative angle
     lo, la = g.CartesianToSpherical()(1.0, -1e-300, 0.0)
     ctx.case(key="lon360", nontrivial=True, kind="c2s/tiny-negative", sample={"vector": [1.0, -1e-300, 0.0]})
